@@ -650,6 +650,11 @@ class Run:
         v_new = None
         if isinstance(out, tuple) or isinstance(v_ref, tuple):
             self.stats["r4_checked"] += 1
+            if isinstance(v_ref, tuple) and not isinstance(out, tuple):
+                # the object before saving cannot be optimised but the loaded one can (zoneinfo start + block_size, section
+                # 9.3 item 7): nothing that could be optimised before is lost - not charged, as in R1
+                self.stats["saved_raises_loaded_works"] = self.stats.get("saved_raises_loaded_works", 0) + 1
+                return True
             if isinstance(out, tuple) != isinstance(v_ref, tuple):
                 self.viol("R4-run-from-json-value", i, "run_from_json: %r, same steps on the object before saving: %r" % (out if isinstance(out, tuple) else "works", v_ref if isinstance(v_ref, tuple) else "works"), "raises")
                 return False
